@@ -7,9 +7,10 @@ wrappers in felix/rules (`PolicyChainName`, `ProfileChainName`,
 * Go strings are byte sequences: `Str := List Nat`.
 * `hash : Str → Str` is base64.RawURLEncoding(sha256(·)) — an uninterpreted
   PARAMETER (43 characters in reality; theorems that need that say so).
-* Go panics (`log.Panicf` when there is no room for the hash, and the
-  out-of-range slice `hash[0:charsLeftForHash]` when there is more room than
-  hash) are modelled as `none`.
+* The Go panic (`log.Panicf` when there is no room for even one hash
+  character) is modelled as `none`. Since /repo d3812f3 the number of hash
+  characters kept is `min(charsLeftForHash, len(hash))`, so there is no
+  out-of-range slice any more.
 Core Lean only (linked into the driver executable).
 -/
 namespace CalicoVerif.C37
@@ -27,8 +28,9 @@ def getLengthLimitedID (hash : Str → Str) (fixedPrefix suffix : Str) (maxLengt
     let h := hash suffix
     let charsLeftForHash : Int := maxLength - 1 - (fixedPrefix.length : Int)
     if charsLeftForHash ≤ 0 then none                         -- log.Panicf
-    else if charsLeftForHash > (h.length : Int) then none       -- hash[0:n] out of range
-    else some (fixedPrefix ++ [us] ++ h.take charsLeftForHash.toNat)
+    else
+      let charsLeftForHash := min charsLeftForHash (h.length : Int)   -- d3812f3
+      some (fixedPrefix ++ [us] ++ h.take charsLeftForHash.toNat)
   else some (fixedPrefix ++ suffix)
 
 /-- Did `GetLengthLimitedID` take the shortening branch? -/
